@@ -152,7 +152,7 @@ class Family:
                     self.stats["evaluations"] += r.compared
                     self.stats["ub_skipped"] += r.ub
                     self.arms[0] += max(0, r.arms_seen - next(x[1].arms_seen for x in out if x[0] is p))
-                    if r.verdict() in ("diff", "ilsort", "defuse", "ilsyntax"):
+                    if r.verdict() in ("diff", "refdiff", "ilsort", "defuse", "ilsyntax"):
                         failed2.append((p, r))
                 if failed2:
                     # states of the second stream are reproduced by the replay through the recorded seed offset
@@ -240,6 +240,8 @@ class Family:
             summary = f"[{self.label}] emitted text is not a declaration list + return: {r.syntax}"
         elif v == "diff":
             summary = f"[{self.label}] IL and C disagree on {r.diff} of {r.compared} defined states for `{p.src[:120]}`: {first[2] if first else ''}"
+        elif v == "refdiff":
+            summary = f"[{self.label}] the bundled routine called by `{p.src[:100]}` disagrees with its reference model (expected, got) on {r.refdiff} of {r.refchecked} states: {first[2] if first else ''}"
         elif v == "ilsort":
             summary = f"[{self.label}] ill-sorted IL at run time for `{p.src[:120]}`: {first[2] if first else ''}"
         elif v == "defuse":
@@ -286,6 +288,12 @@ def replay_prog(path, S=None):
         return 0
     print("emitted text identical to the recorded one:", progs[0].rzil == rp.get("emitted"))
     nst = 64 if rp.get("tier") == "quick" else 256
+    if rp["name"].startswith("sub:"):
+        from . import submodels
+
+        progs[0].extra["ref_fn"] = submodels.wrapper_refs().get(rp["name"])
+        if "fcirc_add" in rp["text"]:
+            progs[0].extra["states_fn"] = submodels.circ_states
     results, info = S.differential(progs, nst, seed=run.seed)
     r = results[0]
     print("verdict:", r.verdict(), "ok", r.ok, "diff", r.diff, "ilsort", r.ilsort, "defuse", r.defuse, "ub", r.ub)
